@@ -10,7 +10,8 @@ a real `SimulationContext`, together with model-specification values, override a
 defaults over shared key paths; compared with Driver/C20.lean: outcome class of every stage, registered
 names, complete setup order (managers + components), the values every object reads through
 `builder.configuration` while it is set up, the fate of every write attempted from inside `setup`, the
-values after setup, writes / add_components / a second setup() after setup.
+values after setup, writes / add_components / a second setup() after setup; deletions from setup (finding F18,
+signature `config-delete-after-freeze`: layered_config_tree does not test `_frozen` in __delattr__/__delitem__).
 """
 from __future__ import annotations
 
@@ -142,6 +143,31 @@ def _write(cfg, path, val, how) -> str:
         return classify(e)
 
 
+def _delete(cfg, key, how) -> str:
+    """`del cfg.a.b` / `del cfg["a"]["b"]` -> ok (existed, gone) / refused (raised or still there) / absent"""
+    from layered_config_tree import LayeredConfigTree
+    parts = key.split(".")
+    node = cfg
+    for k in parts[:-1]:
+        if not isinstance(node, LayeredConfigTree) or k not in node:
+            return "absent"
+        node = node[k]
+    if not isinstance(node, LayeredConfigTree) or parts[-1] not in node:
+        return "absent"
+    try:
+        if how == "delattr":
+            delattr(node, parts[-1])
+        else:
+            del node[parts[-1]]
+    except Exception:  # noqa: BLE001
+        return "refused"
+    return "refused" if parts[-1] in node else "ok"
+
+
+def under(key, p) -> bool:
+    return p == key or p.startswith(key + ".")
+
+
 _MGR_INFO = None
 
 
@@ -165,8 +191,11 @@ def _run(case):
     from vivarium.framework.engine import SimulationContext
 
     LOG = []
+    DELETED = []
     probes = case["probes"]
     attempts = case["attempts"]
+    flat_names = [t["n"] for t in preorder(case["forest"])]
+    deleter = flat_names[-1] if (case.get("delete") and flat_names) else None
 
     class P(Component):
         def __init__(self, nm, subs, defaults):
@@ -189,6 +218,8 @@ def _run(case):
             seen = [_read(builder.configuration, p) for p in probes]
             tried = [[self.nm, p, _write(builder.configuration, p, v, how)] for n, p, v, how in attempts if n == self.nm]
             LOG.append(["comp", self.nm, seen, tried])
+            if self.nm == deleter:
+                DELETED.append([self.nm, case["delete"][0], _delete(builder.configuration, *case["delete"])])
 
     memo = {}
 
@@ -204,7 +235,7 @@ def _run(case):
         return LayeredConfigTree(d) if kind == "lct" else d
 
     obs = {"mgrs": manager_info(), "stages": [], "pre": [], "setup": None, "values": None, "post": [],
-           "late_add": None, "setup_twice": None, "del_hole": None}
+           "late_add": None, "setup_twice": None}
     ms = wrap(case["ms_kind"], [["configuration." + p, v] for p, v in case["ms"]])
     ov = wrap(case["ov_kind"], case["ov"])
     forest = case["forest"]
@@ -243,7 +274,7 @@ def _run(case):
     except Exception as e:  # noqa: BLE001
         out = classify(e)
     obs["setup"] = {"outcome": out, "log": [[k, n] for k, n, _, _ in LOG], "seen": [[n, s] for _, n, s, _ in LOG],
-                    "tried": [t for _, _, _, ts in LOG for t in ts]}
+                    "tried": [t for _, _, _, ts in LOG for t in ts], "deleted": DELETED[0] if DELETED else None}
     if out != "ok":
         return obs
     obs["values"] = [[p, _read(sim.configuration, p)] for p in probes]
@@ -267,14 +298,6 @@ def _run(case):
             out = classify(e)
         obs["setup_twice"] = {"outcome": out, "setup_calls": len(LOG) - n0}
     obs["values_end"] = [[p, _read(sim.configuration, p)] for p in probes]
-    # recorded, not judged (third-party layered_config_tree, see notes/agent-reports/C20.md): deletion ignores freeze()
-    top = sorted({p.split(".")[0] for p, v in obs["values_end"] if v is not None and p.split(".")[0].startswith("s")})
-    if top:
-        try:
-            del sim.configuration[top[0]]
-            obs["del_hole"] = top[0] not in sim.configuration
-        except Exception:  # noqa: BLE001
-            obs["del_hole"] = False
     return obs
 
 
@@ -298,7 +321,7 @@ class C20(Prop):
     trusted_extra = ["layered_config_tree (third party) is modelled as layered lookup over (layer, leaf path) entries: one value per "
                      "layer and path, outermost layer wins, freeze() makes every write raise; only prefix-free leaf paths are generated"]
     partial = None
-    n_quick = 500
+    n_quick = 1500
     n_thorough = 8000
     workers = 1
     rule = ("each case is one real SimulationContext: a forest of probe components (depth <= 4, fan-out <= 3, up to ~16 nodes; "
@@ -404,9 +427,14 @@ class C20(Prop):
             a = rng.randint(1, n - 1)
             b = rng.randint(a, n)
             batches = [a] + [x for x in (b - a, n - b) if x > 0]
+        delete = None
+        if rng.random() < 0.25:
+            keys = [p for p in cand if p not in MGR_PATHS]
+            keys = keys + [p.split(".")[0] for p in keys] + [".".join(p.split(".")[:2]) for p in keys if p.count(".") == 2] + ["absent", "s0.nothing"]
+            delete = [rng.choice(keys), rng.choice(["delattr", "delitem"])]
         return {"forest": forest, "batches": batches, "ms": ms, "ms_kind": ms_kind, "ov": ov, "ov_kind": ov_kind,
                 "probes": probes, "attempts": attempts, "pre": pre, "post": post,
-                "late_add": rng.random() < 0.3, "setup_twice": rng.random() < 0.3}
+                "late_add": rng.random() < 0.3, "setup_twice": rng.random() < 0.3, "delete": delete}
 
     @staticmethod
     def _inside(a, t):
@@ -418,7 +446,7 @@ class C20(Prop):
             return {"id": i, "n": n, "d": [list(x) for x in d], "c": list(c)}
 
         def case(forest, batches=None, ms=(), ov=(), attempts=(), pre=(), post=(), probes=None, late=False, twice=False,
-                 ms_kind="dict", ov_kind="dict"):
+                 ms_kind="dict", ov_kind="dict", delete=None):
             flat = preorder(forest)
             used = [p for t in flat for p, _ in t["d"]] + [p for p, _ in ms] + [p for p, _ in ov] + [a[1] for a in attempts] \
                 + [p for p, _ in pre] + [p for p, _, _ in post]
@@ -426,7 +454,8 @@ class C20(Prop):
             return {"forest": forest, "batches": batches or [len(forest)], "ms": [list(x) for x in ms],
                     "ms_kind": ms_kind if ms else None, "ov": [list(x) for x in ov], "ov_kind": ov_kind if ov else None,
                     "probes": pr, "attempts": [list(a) for a in attempts], "pre": [list(x) for x in pre],
-                    "post": [list(x) for x in post], "late_add": late, "setup_twice": twice}
+                    "post": [list(x) for x in post], "late_add": late, "setup_twice": twice,
+                    "delete": list(delete) if delete else None}
         chain = N(0, "a", [("s0.k0", 1)], [N(1, "b", [], [N(2, "c", [("s0.k1", 2)], [N(3, "d", [("s1.k0", 3)])])])])
         wide = N(0, "a", [], [N(1, "b", [], [N(4, "e"), N(5, "f"), N(6, "g")]), N(2, "c", [("s0.k0", 1)]), N(3, "d", [], [N(7, "h")])])
         out = [
@@ -473,6 +502,15 @@ class C20(Prop):
             case([N(0, "a", [("s0.k0", 1)])], ov=[("s0.k1", 9)], pre=[("s0.k0", 70)], post=[("s0.k0", 71, "update")]),
             case([N(0, "a", [("s0.k0", 1)])], ov=[("s0.k0", 9)], pre=[("s0.k0", 70)]),
             case([N(0, "a", [("s0.k0", 1)])], pre=[("early.k0", 70)], attempts=[("a", "early.k0", 5, "update")]),
+            # F18 (known finding): deletions from a component's setup – a whole section, one leaf, a user-supplied key,
+            # a sub-tree, a key that does not exist (nothing to delete: not a finding)
+            case([N(0, "a", [("s0.k0", 1), ("s1.k0", 2)])], delete=("s0", "delattr"), post=[("s1.k0", 5, "update")]),
+            case([N(0, "a", [("s0.k0", 1), ("s0.k1", 2)], [N(1, "b")])], delete=("s0.k1", "delitem"),
+                 attempts=[("b", "s0.k1", 7, "update")]),
+            case([N(0, "a", [("s0.k0", 1)]), N(1, "b")], ms=[("s0.k0", 10), ("s0.k1", 20)], ov=[("s0.k0", 100)],
+                 delete=("s0.k0", "delattr"), late=True, twice=True),
+            case([N(0, "a", [("s3.d.k0", 1), ("s3.e.k0", 2)])], delete=("s3.d", "delitem")),
+            case([N(0, "a", [("s0.k0", 1)])], delete=("absent", "delattr")),
         ]
         return out
 
@@ -500,6 +538,8 @@ class C20(Prop):
                 if key == "ov" and not c["ov"]:
                     c["ov_kind"] = None
                 yield c
+        if case.get("delete"):
+            yield dict(case, delete=None)
         if case["late_add"]:
             yield dict(case, late_add=False)
         if case["setup_twice"]:
@@ -530,6 +570,9 @@ class C20(Prop):
         if obs["setup"] is not None:
             att = ";".join(f"{n}={p}={tok(v)}" for n, p, v, _ in case["attempts"]) or "-"
             plan.append((f"setup {','.join(case['probes']) or '-'} {att}", "setup", obs["setup"]))
+            d = obs["setup"].get("deleted")
+            if d and d[2] == "ok" and obs["setup"]["outcome"] == "ok":
+                plan.append((f"del {d[1]}", "del", d))
         if obs["values"] is not None:
             for p, v in obs["values"]:
                 plan.append((f"get {p}", "get", v))
@@ -595,6 +638,9 @@ class C20(Prop):
                 itried = [[n, p, "ok" if o == "ok" else "refused"] for n, p, o in pay["tried"]]
                 if mtried != itried:
                     dis.append(f"#{k} writes attempted from setup: impl {pay['tried']}, model {mtried}")
+            elif kind == "del":
+                if mo != "ok":
+                    dis.append(f"#{k} {line}: model {r}")
             elif kind == "get":
                 mv = t[1] if t[0] == "val" else None
                 if mv != pay:
@@ -638,6 +684,9 @@ class C20(Prop):
             f.append({"sig": "valid-program-rejected", "msg": f"unique names {names}, disjoint defaults, stage outcomes {outcomes}"})
         if not completed:
             return f
+        reg = obs["stages"][-1]["registered"] if obs["stages"] else []
+        if sorted(reg) != sorted(names):
+            f.append({"sig": "component-registration-count", "msg": f"supplied {names}, registered {reg}"})
         log = obs["setup"]["log"]
         comp_calls = [n for k, n in log if k == "comp"]
         # exactly once
@@ -662,9 +711,18 @@ class C20(Prop):
         # user values win, during setup and afterwards, whatever the order
         ov, ms = dict(map(tuple, case["ov"])), dict(map(tuple, case["ms"]))
         touched = {p for p, _ in case["pre"]}
+        # F18: a deletion from a component's setup that is accepted (layered_config_tree ignores freeze() in
+        # __delattr__/__delitem__). Exactly this input class gets its own signature; what follows from it (the deleted
+        # keys read differently afterwards) is not reported a second time under another signature.
+        d = obs["setup"].get("deleted")
+        gone = d[1] if d and d[2] == "ok" else None
+        if gone is not None:
+            f.append({"sig": "config-delete-after-freeze",
+                      "msg": f"component {d[0]} ran `del builder.configuration.{gone}` inside setup(): accepted, "
+                             f"values afterwards {[x for x in obs['values'] if under(gone, x[0])]}"})
         idx = {p: i for i, p in enumerate(case["probes"])}
         for p in case["probes"]:
-            if p in touched or not (p in ov or p in ms):
+            if p in touched or not (p in ov or p in ms) or (gone is not None and under(gone, p)):
                 continue
             want = tok(ov[p] if p in ov else ms[p])
             got = dict(map(tuple, obs["values"])).get(p)
@@ -679,9 +737,11 @@ class C20(Prop):
         acc = [t for t in obs["setup"]["tried"] if t[2] == "ok"]
         if acc:
             f.append({"sig": "config-modified-in-setup", "msg": f"writes accepted from inside setup(): {acc}"})
+        keep = [i for i, p in enumerate(case["probes"]) if not (gone is not None and under(gone, p))]
         views = [s for _, s in obs["setup"]["seen"]] + [[v for _, v in obs["values"]]] + [[v for _, v in obs.get("values_end", obs["values"])]]
+        views = [[v[i] for i in keep] for v in views]
         if any(v != views[0] for v in views):
-            f.append({"sig": "config-changed-after-setup-began", "msg": f"probes {case['probes']}: different values were visible at different moments: {[v for v in views if v != views[0]][:2]} vs {views[0]}"})
+            f.append({"sig": "config-changed-after-setup-began", "msg": f"probes {[case['probes'][i] for i in keep]}: different values were visible at different moments: {[v for v in views if v != views[0]][:2]} vs {views[0]}"})
         if any(o == "ok" for o in obs["post"]):
             f.append({"sig": "config-modified-after-setup", "msg": f"writes after setup(): {list(zip(case['post'], obs['post']))}"})
         if obs["late_add"] and (obs["late_add"]["outcome"] == "ok" or obs["late_add"]["registered"]) and obs["late_add"]["setup_calls"] != 1:
@@ -748,15 +808,21 @@ class C20(Prop):
                        ("user-only", (ov | ms) - defaulted - mgrp)):
             if s:
                 t.append("layering:" + lab)
-        if obs.get("del_hole") is not None:
-            t.append("observation:delete-after-freeze-" + ("accepted" if obs["del_hole"] else "refused"))
+        if obs["setup"] and obs["setup"].get("deleted"):
+            d = obs["setup"]["deleted"]
+            t.append("delete-from-setup:" + d[2])
+            t.append("delete-how:" + case["delete"][1])
+            if d[2] == "ok":
+                t.append("delete-target:" + ("section" if "." not in d[1] else "leaf-or-subtree"))
+                if any(under(d[1], p) for p, _ in case["ov"] + case["ms"]):
+                    t.append("delete-target:user-supplied-key")
         return t
 
     def sample_view(self, case, obs):
         return {"forest": [self._show(t) for t in case["forest"]], "batches": case["batches"], "ms": case["ms"], "ov": case["ov"],
                 "stages": [[s["op"], s["outcome"]] for s in obs["stages"]],
                 "setup": obs["setup"] and {"outcome": obs["setup"]["outcome"], "order": [n for _, n in obs["setup"]["log"]][-8:],
-                                           "tried": obs["setup"]["tried"]},
+                                           "tried": obs["setup"]["tried"], "deleted": obs["setup"].get("deleted")},
                 "values": obs["values"]}
 
     def _show(self, t):
